@@ -201,7 +201,7 @@ class kLeastAbsErrors(pathmodel.AbstractPathModelDAG):
         self.k = k
         self.original_k = k
         self.solution_weights_superset = solution_weights_superset
-        self.optimization_options = optimization_options or {}        
+        self.optimization_options = dict(optimization_options) if optimization_options else {}  # a copy: the caller's dict must not be modified
 
         self.subpath_constraints_coverage = subpath_constraints_coverage
         self.subpath_constraints_coverage_length = subpath_constraints_coverage_length
